@@ -43,6 +43,11 @@ def select(prop, tier):
 def render(hs):
     pre = open(os.path.join(ROOT, 'kani', 'harness_prelude.rs')).read()
     parts = [pre]
+    try:
+        import builtin_harnesses
+        parts.append(builtin_harnesses.PRELUDE)
+    except ImportError:
+        pass
     for h in hs:
         attrs = h.get('attrs') or ''
         parts.append('// %s\n#[kani::proof]\n%sfn %s() {\n%s\n}\n' % (h.get('doc', ''), attrs + ('\n' if attrs else ''), h['name'], h['body']))
@@ -67,12 +72,12 @@ def make_crate(scratch, hs):
 
 
 def kani_cmd(names, jobs, extra=None):
-    cmd = ['cargo', 'kani', '--output-format', 'terse', '-j', str(jobs)]
+    cmd = ['cargo', 'kani', '-Z', 'stubbing', '-Z', 'unstable-options', '--output-format', 'terse', '-j', str(jobs)]
     for n in names:
         cmd += ['--harness', 'verif_kani::' + n]
     cmd += ['--exact']
-    if extra:
-        cmd += extra
+    # CBMC arguments must come last; the bound on memcmp serves the name match of the builtin dispatch
+    cmd += ['--cbmc-args', '--unwindset', 'memcmp.0:24']
     return cmd
 
 
@@ -120,7 +125,7 @@ def parse_terse(out, names):
 
 def playback(crate, h, timeout):
     """rerun one failing harness with concrete playback; returns (values, raw)"""
-    cmd = ['cargo', 'kani', '--exact', '--harness', 'verif_kani::' + h['name'], '-Z', 'concrete-playback', '--concrete-playback=print'] + (h.get('extra') or [])
+    cmd = ['cargo', 'kani', '-Z', 'stubbing', '-Z', 'unstable-options', '--exact', '--harness', 'verif_kani::' + h['name'], '-Z', 'concrete-playback', '--concrete-playback=print', '--cbmc-args', '--unwindset', 'memcmp.0:24']
     env = dict(os.environ, CARGO_NET_OFFLINE='true')
     try:
         p = subprocess.run(cmd, cwd=crate, capture_output=True, text=True, timeout=timeout, env=env)
@@ -140,13 +145,14 @@ def run(prop, tier, seed, scratch):
     if not hs:
         return {'obligations': [], 'failures': [], 'trusted': [], 'cmds': [], 'bounded': [], 'wall': 0}
     t0 = time.time()
-    crate = make_crate(scratch, load_harnesses())
+    # only the selected harnesses are generated: Kani's code generation costs ~2.5 s per harness
+    crate = make_crate(scratch, hs)
     env = dict(os.environ, CARGO_NET_OFFLINE='true')
     jobs = int(os.environ.get('VERIF_JOBS', '16'))
     # group harnesses by extra flags (unwind sets, stubbing)
     groups = {}
     for h in hs:
-        groups.setdefault(tuple(h.get('extra') or ()), []).append(h)
+        groups.setdefault((), []).append(h)
     results = {}
     cmds = []
     budget = int(os.environ.get('VERIF_KANI_TIMEOUT', '3600' if tier == 'thorough' else '1500'))
@@ -186,5 +192,14 @@ def run(prop, tier, seed, scratch):
             failures.append({'obligation': name + '#' + (';'.join((pb or {}).get('failed_checks') or r.get('failed_checks') or ['failed']))[:200],
                              'engine': 'kani', 'kind': 'kani', 'message': 'Kani refuted harness %s: %s' % (h['name'], h.get('doc', '')),
                              'clause': h['body'][:600], 'witness': w, 'output': raw})
+    not_decided = []
+    if prop in ('C10', 'C01'):
+        try:
+            import builtin_harnesses as bh
+            if bh.SLOW:
+                not_decided.append('builtin cases on which CBMC does not finish within 120 s (recursive drop glue of cloned Value/EvalexprError temporaries), not run and not counted: '
+                                   + ', '.join(c['id'] for c in bh.SLOW))
+        except ImportError:
+            pass
     trusted = ['kani: CBMC bit-precise semantics of Rust MIR (Kani 0.68 / CBMC 6.11); termination not proved by Kani']
-    return {'obligations': obligations, 'failures': failures, 'trusted': trusted, 'cmds': cmds, 'bounded': bounded, 'wall': time.time() - t0}
+    return {'obligations': obligations, 'failures': failures, 'trusted': trusted, 'cmds': cmds, 'bounded': bounded, 'wall': time.time() - t0, 'not_decided': not_decided}
